@@ -71,9 +71,16 @@ class ErrorEstimator:
                 gamma = elem_left.gamma_space
                 assert np.allclose(gamma(elem_left.space_interval[1]),
                                    gamma(elem_right.space_interval[0]))
-                val[i] = self.slobodeckij.seminorm_h_1_2(
-                    residual_t, elem_left.space_interval[0],
-                    elem_right.space_interval[1], gamma)
+                x_a = elem_left.space_interval[0]
+                x_b = elem_right.space_interval[1]
+                f = residual_t
+                if x_b < x_a:
+                    # The elements touch through the glued boundary of a
+                    # one-piece closed curve: continue the parametrization
+                    # periodically over the union of the two elements.
+                    x_b += self.gamma_len
+                    f = lambda x_hat, x: residual_t(x_hat % self.gamma_len, x)
+                val[i] = self.slobodeckij.seminorm_h_1_2(f, x_a, x_b, gamma)
             else:
                 val[i] = self.slobodeckij.seminorm_h_1_2_pw(
                     residual_t, *elem_left.space_interval,
